@@ -263,6 +263,11 @@ class Engine(ExprMixin, CallMixin, StmtMixin):
             return T.sv_bool(TH.distinct_t(self.ev(e.args[0], p).t))
         if fn == "strict":
             return T.sv_bool(TH.strict(self.ev(e.args[0], p).t))
+        if fn == "listing":      # list(S): every member of the set once
+            v = self.ev(e.args[0], p)
+            if isinstance(v.ty, T.Map):
+                v = T.scalar(T.Set(v.ty.k), v.dom)
+            return T.scalar(T.Bag(v.ty.e), TH.bagof_fn(v.ty.e)(v.t))
         if fn == "with_node":
             return T.scalar(T.TUP, TH.twith(self.ev(e.args[0], p).t, self.ev(e.args[1], p).t))
         if fn == "without":
